@@ -13,7 +13,10 @@
 (*                                                                         *)
 (* mode "session": only the request loop on one connection after another   *)
 (* (harness: verif::ClientSession); mode "task": the whole TCP channel     *)
-(* task with connect / retry / listener.                                   *)
+(* task with connect / retry / listener; mode "serial": the RTU channel    *)
+(* task (SerialChannelTask::run / run_inner / try_open_and_run), which     *)
+(* differs in that opening the port is one synchronous call, there is no   *)
+(* "connecting" notification and the listener speaks PortState.            *)
 (***************************************************************************)
 EXTENDS ModbusPdu, Mbap, Rtu, TLC
 
@@ -33,7 +36,7 @@ Init0(mode, framing, cap, maxTO, rmin, rmax, txid0) ==
    conn |-> IF mode = "session" THEN "open" ELSE "none",
    rbuf |-> <<>>, eof |-> FALSE, wfail |-> FALSE,
    endReason |-> "", ready |-> {}, wake |-> 0, retryCur |-> rmin, connRes |-> "none",
-   attempts |-> 0]
+   attempts |-> 0, portOk |-> TRUE]
 
 (***************************************************************************)
 (* Output events                                                           *)
@@ -41,7 +44,14 @@ Init0(mode, framing, cap, maxTO, rmin, rmax, txid0) ==
 Tx(bytes) == [e |-> "tx", bytes |-> bytes]
 Done(r, class, code, values) == [e |-> "done", r |-> r, class |-> class, code |-> code, values |-> values]
 End(reason) == [e |-> "end", reason |-> reason]
-Listener(state, d) == [e |-> "listener", state |-> state, d |-> d]
+\* ClientState for the TCP task, PortState for the serial one
+Listener(state, d) ==
+  [e |-> "listener",
+   state |-> IF s.mode # "serial" THEN state
+             ELSE CASE state = "Connected" -> "Open"
+                    [] state \in {"WaitAfterFailedConnect", "WaitAfterDisconnect"} -> "Wait"
+                    [] OTHER -> state,
+   d |-> d]
 
 ReqFrame(req, tx) ==
   IF s.framing = "tcp" THEN MbapFrame(tx, req.unit, EncodeRequest(req))
@@ -186,18 +196,21 @@ Start == GStart /\ s' = [s EXCEPT !.pc = "wait_en"] /\ out' = Listener("Disabled
 GBeginConnect == s.pc = "wait_en" /\ s.enabled
 BeginConnect == /\ GBeginConnect
                 /\ s' = [s EXCEPT !.pc = "connect_call"]
-                /\ out' = Listener("Connecting", 0)
+                /\ out' = IF s.mode = "serial" THEN NoOut ELSE Listener("Connecting", 0)
 
-(* the connection attempt itself (TcpStream::connect / the harness connector) starts here *)
+(* the connection attempt itself (TcpStream::connect / the harness connector) starts here;
+   opening a serial port is synchronous: its outcome is known at once *)
 GAttempt == s.pc = "connect_call"
 Attempt == /\ GAttempt
-           /\ s' = [s EXCEPT !.pc = "connecting", !.connRes = "none", !.attempts = s.attempts + 1]
+           /\ s' = [s EXCEPT !.pc = "connecting", !.attempts = s.attempts + 1,
+                             !.connRes = IF s.mode # "serial" THEN "none" ELSE IF s.portOk THEN "ok" ELSE "err"]
            /\ out' = [e |-> "attempt"]
 
 (* while not connected every queued request fails at once with no-connection *)
-GFailNext == /\ \/ s.pc = "wait_en" /\ ~s.enabled
-                \/ s.pc \in {"connecting", "wait_fail", "wait_disc"}
-             /\ s.queue # <<>>
+Waiting == \/ s.pc = "wait_en" /\ ~s.enabled
+           \/ s.pc \in {"wait_fail", "wait_disc"}
+           \/ s.pc = "connecting" /\ s.mode # "serial"
+GFailNext == Waiting /\ s.queue # <<>>
 FailNext ==
   /\ GFailNext
   /\ LET h == Head(s.queue)
@@ -212,9 +225,7 @@ FailNext ==
                          /\ out' = NoOut
        [] h.t = "shut" -> s' = [s1 EXCEPT !.pc = "stopping"] /\ out' = NoOut
 
-GFailClosed == /\ \/ s.pc = "wait_en" /\ ~s.enabled
-                  \/ s.pc \in {"connecting", "wait_fail", "wait_disc"}
-               /\ ChanClosed
+GFailClosed == Waiting /\ ChanClosed
 FailClosed == GFailClosed /\ s' = [s EXCEPT !.pc = "stopping"] /\ out' = NoOut
 
 GConnected == s.pc = "connecting" /\ s.connRes = "ok"
@@ -314,6 +325,9 @@ ConnectorResult(res) ==
 ConnectorResultRacing(res) ==
   /\ s.pc = "connecting" /\ s.connRes = "none" /\ out' = NoOut
   /\ s' = [s EXCEPT !.connRes = res]
+
+\* whether the next attempts to open the serial port succeed
+PortSet(ok) == Quiescent /\ out' = NoOut /\ s' = [s EXCEPT !.portOk = ok]
 
 (* session mode: the harness runs the loop again on a new connection *)
 NewConnection ==
